@@ -15,7 +15,7 @@ from vf import core, engine, pool
 GRID = V.grid()  # (value, source, tag)
 SRC2VAL = {s: v for v, s, _ in GRID}
 
-TARGET_FORMS = ["global", "local", "cell", "free", "dot", "index", "elem"]
+TARGET_FORMS = ["global", "local", "cell", "free", "dot", "index", "elem", "param", "cellparam"]
 
 
 # ---------------------------------------------------------------- worker side
@@ -60,7 +60,19 @@ def _target(form):
         return ("var o = {p: 0}; var k = 'p';", "o[k]", "o['p']", True)
     if form == "elem":
         return ("var arr = [0, 0];", "arr[1]", "arr[1]", False)
+    if form == "param":  # a parameter of the enclosing function
+        return ("", "x", "x", "param")
+    if form == "cellparam":  # a parameter that an inner function also uses (lives in a closure cell)
+        return ("var rd = function(){ return x; };", "x", "rd()", "param")
     raise KeyError(form)
+
+
+def _wrap(s, wrap):
+    if wrap == "param":
+        return "(function(x){ %s return out; })(0)" % s
+    if wrap:
+        return "(function(){ %s return out; })()" % s
+    return s + "out"
 
 
 def _script_compound(op, form, left_src, right_srcs):
@@ -75,9 +87,7 @@ def _script_compound(op, form, left_src, right_srcs):
         "for (var i = 0; i < G.length; i++) { %s var v = %s; out.push(typeof r); out.push(r); out.push(typeof v); out.push(v); }\n"
         % (", ".join(right_srcs), left_src, prelude, body, rd)
     )
-    if wrap:
-        return "(function(){ %s return out; })()" % s
-    return s + "out"
+    return _wrap(s, wrap)
 
 
 def _script_update(op, form, srcs):
@@ -93,9 +103,25 @@ def _script_update(op, form, srcs):
         "for (var i = 0; i < G.length; i++) { %s var v = %s; out.push(typeof r); out.push(r); out.push(typeof v); out.push(v); }\n"
         % (", ".join(srcs), prelude, body, rd)
     )
-    if wrap:
-        return "(function(){ %s return out; })()" % s
-    return s + "out"
+    return _wrap(s, wrap)
+
+
+def _script_unary_form(op, form, srcs):
+    """Unary operator applied to a variable / member of every target form (typeof and friends have
+    their own compile paths per kind of operand)."""
+    prelude, lv, rd, wrap = _target(form)
+    sp = " " if op.isalpha() else ""
+    if form == "free":
+        prelude = prelude.replace("__APPLY__", "(%s%s x)" % (op, sp))
+        body = "var r = wr(0, G[i]);"
+    else:
+        body = "%s = G[i]; var r = (%s%s %s);" % (lv, op, sp, lv)
+    s = (
+        "var G = [%s]; var out = []; %s\n"
+        "for (var i = 0; i < G.length; i++) { %s out.push(typeof r); out.push(r); }\n"
+        % (", ".join(srcs), prelude, body)
+    )
+    return _wrap(s, wrap)
 
 
 def build_script(task):
@@ -103,6 +129,8 @@ def build_script(task):
     if kind == "bin":
         return _script_binary(task[1], task[2], task[3]), 2
     if kind == "un":
+        if len(task) > 4 and task[4]:
+            return _script_unary_form(task[1], task[4], task[3]), 2
         return _script_unary(task[1], task[3]), 2
     if kind == "tern":
         return _script_ternary(task[2], task[3]), 2
@@ -216,6 +244,8 @@ def table_tasks(chk):
             tasks.append(("bin", op, ls, srcs))
     for op in P.UNOPS:
         tasks.append(("un", op, "", srcs))
+        for form in TARGET_FORMS:
+            tasks.append(("un", op, "", srcs, form))
     for ls in ["1", '"abc"']:
         tasks.append(("tern", "?:", ls, srcs))
     forms = TARGET_FORMS
@@ -455,9 +485,7 @@ def _script_cmplit(op, form, left_src, right_src):
     else:
         body = "%s = a; var r = (%s %s %s);" % (lv, lv, op, right_src)
     s = "var a = %s; %s %s var v = %s; var out = [typeof r, r, typeof v, v];" % (left_src, prelude, body, rd)
-    if wrap:
-        return "(function(){ %s return out; })()" % s
-    return s + " out"
+    return _wrap(s + " ", wrap)
 
 
 def eval_cmplit(tasks):
